@@ -386,6 +386,26 @@ func fidelityGate(b *Built, env []string) string {
 	if len(rp.m) == 0 || len(ri.m) == 0 {
 		fail2("fidelity gate: no test results (plain %d, instrumented %d)\n%s\n%s", len(rp.m), len(ri.m), rp.err, ri.err)
 	}
+	differs := func() bool {
+		for k, v := range rp.m {
+			if ri.m[k] != v {
+				return true
+			}
+		}
+		return false
+	}
+	if differs() {
+		// Once more before calling it a difference: a test binary that was killed
+		// or timed out on a loaded machine shows up as a failed package without
+		// test results. Only an outcome that differs in both instrumented runs
+		// counts (a behaviour the instrumenter changed is there every time).
+		ri2 := runTests(b.Inst, []string{"GOMAXPROCS=1", "GODEBUG=asyncpreemptoff=1"})
+		for k, v := range rp.m {
+			if ri.m[k] != v && ri2.m[k] == v {
+				ri.m[k] = v
+			}
+		}
+	}
 	var diff []string
 	for k, v := range rp.m {
 		if ri.m[k] != v {
